@@ -443,7 +443,7 @@ func c06NamesFile(c *Check) {
 	}
 	perFile := map[*ssa.Function]bool{}
 	for _, f := range p.RepoFuncs() {
-		if fnPkgPath(f) != pk.PkgPath || !strings.HasSuffix(p.fnFile(f), "/parse.go") {
+		if fnPkgPath(f) != pk.PkgPath || strings.HasSuffix(p.fnFile(f), "_test.go") || isListenerCode(p, f) {
 			continue
 		}
 		if errorResultIndex(f.Signature) < 0 {
@@ -723,6 +723,11 @@ func c06StrictDecode(c *Check) {
 			continue
 		}
 		eachInstr(f, func(_ *ssa.BasicBlock, i ssa.Instruction) {
+			for _, fv := range funcValueOperands(i) {
+				if o, ok := fv.Object().(*types.Func); ok && o.Pkg() != nil && isDecodePkg(o.Pkg().Path()) && o.Name() == "Unmarshal" {
+					nDec++ // the package-level decoder (default options) used as a function value
+				}
+			}
 			switch x := i.(type) {
 			case ssa.CallInstruction:
 				if o := calleeObj(x); o != nil && o.Pkg() != nil && isDecodePkg(o.Pkg().Path()) && o.Name() == "Unmarshal" {
